@@ -18,6 +18,15 @@ SynKitProofs/Props/C10.lean.  This file ties the model to the working tree:
  (d) the export routes `smart_to_gml(rsmi)`, `its_to_gml(full ITS, core=True)`,
      `its_to_gml(centre)` (and full export both ways) give pairwise isomorphic rules after
      re-import, also across renumberings of the atom maps.
+
+Coverage-gap streams (a2/b2/c2/d2; model: SynKitModel/ReprOpt.lean): the non-default options and the
+alternative entry points of the same functions - `use_index_as_atom_map` / `drop_non_aam` on partially
+mapped molecules, attribute selection / `attr_profile` / `with_topology`, the legacy
+`MolToGraph.mol_to_graph` (light-weight and detailed), `graph_to_mol(use_h_count=False)`,
+`graph_to_smi(preserve_atom_maps=...)`, `graph_to_rsmi`; `h_to_explicit(G, nodes, its)`,
+`implicit_hydrogen(reindex=True)`, `rsmi_to_its(explicit_hydrogen=True / core=True)`; the GML writer
+with `explicit_hydrogen=True` and a rule name, GML text written by someone else (context edges, other
+line order); reactions with unmapped atoms, a reaction SMARTS as input (`useSmiles=False`).
 """
 import copy
 import itertools
@@ -583,7 +592,7 @@ def check_labels(ctx, B):
 ISO_SEL = {"node_keys": ["v"], "edge_keys": ["o"], "hcount": False}
 
 
-def check_its(ctx, B, I, tag, origin):
+def check_its(ctx, B, I, tag, origin, rule_name=None):
     """I: an ITS graph (networkx). Exports: centre (core=True) and full (core=False), reindex both."""
     from synkit.IO.chem_converter import its_to_gml, gml_to_its
     from synkit.IO.gml_to_nx import GMLToNX
@@ -610,11 +619,14 @@ def check_its(ctx, B, I, tag, origin):
                           {"impl": canon_graph(rcj), "model": canon_graph(rep)}, no_input=True)
     B.add({"cmd": "gml.getRc", "its": Ij}, cb_rc)
 
+    # the rule name is an argument of the export as well: drawn once per graph (recorded in the case)
+    name = rule_name if rule_name is not None else ctx.rnd.choice(RULE_NAMES)
+    ctx.count("c:rule_name:default" if name == "rule" else "c:rule_name:other")
     for core, src, srcj in ((True, rc, rcj), (False, I, Ij)):
         for reindex in (False, True):
-            case = {"kind": "its", "its": Ij, "core": core, "reindex": reindex, "origin": origin}
+            case = {"kind": "its", "its": Ij, "core": core, "reindex": reindex, "origin": origin, "rule_name": name}
             try:
-                gml = its_to_gml(copy.deepcopy(I if not core else rc), core=core, reindex=reindex)
+                gml = its_to_gml(copy.deepcopy(I if not core else rc), core=core, rule_name=name, reindex=reindex)
                 L, R, back = GMLToNX(gml).transform()
                 back2 = gml_to_its(gml)
             except Exception as e:
@@ -622,16 +634,16 @@ def check_its(ctx, B, I, tag, origin):
                 continue
             backj = enc(back2)
             ctx.count("c:exports")
-            one_export(ctx, B, case, gml, srcj, core, reindex, enc(L), enc(R), backj)
+            one_export(ctx, B, case, gml, srcj, core, reindex, enc(L), enc(R), backj, name)
 
 
-def one_export(ctx, B, case, gml, srcj, core, reindex, Lj, Rj, backj):
+def one_export(ctx, B, case, gml, srcj, core, reindex, Lj, Rj, backj, name="rule"):
     st = {}
     # writer: impl = model
     B.add({"cmd": "gml.itsToGml", "its": srcj, "core": core, "reindex": reindex}, lambda rep: st.__setitem__("w", rep))
     # reader: impl = model on the implementation's text; text format stable
     B.add({"cmd": "gml.read", "text": gml}, lambda rep: st.__setitem__("r", rep))
-    B.add({"cmd": "gml.retext", "text": gml}, lambda rep: st.__setitem__("t", rep))
+    B.add({"cmd": "gml.retext", "text": gml, "name": name}, lambda rep: st.__setitem__("t", rep))
     B.add({"cmd": "gml.shape", "its": srcj}, lambda rep: st.__setitem__("shape", rep))
     cand = backj
     if reindex:
@@ -673,11 +685,19 @@ def relabel_json(j, f):
     return {"nodes": [[f(n), a] for n, a in j["nodes"]], "edges": [[f(u), f(v), a] for u, v, a in j["edges"]]}
 
 
-def equiv(B, aj, bj, cb):
-    """equivalent rules: identical on ids (Lean ruleEqb), else label-preserving isomorphism of the views."""
+def equiv(B, aj, bj, cb, iso_limit=None, undecided=None):
+    """equivalent rules: identical on ids (Lean ruleEqb), else label-preserving isomorphism of the views. With `iso_limit`, rules
+    with more nodes than that are not searched (explicit-hydrogen rules have many interchangeable hydrogens): `undecided()` is
+    called instead of `cb`."""
     def on_eq(rep):
         if rep:
             cb(True)
+            return
+        if iso_limit is not None and max(len(aj["nodes"]), len(bj["nodes"])) > iso_limit:
+            if len(aj["nodes"]) != len(bj["nodes"]) or len(aj["edges"]) != len(bj["edges"]):
+                cb(False)
+            elif undecided is not None:
+                undecided()
             return
         vs = {}
         B.add({"cmd": "gml.view", "its": aj}, lambda r: vs.__setitem__("a", r))
@@ -720,11 +740,38 @@ def synth_its(rnd):
 
 
 # ------------------------------------------------------------------ (d) export routes
-def check_routes(ctx, B, rsmi, origin, base_view=None):
-    """-> view graph (json, via callback list) of the centre rule, for comparison across renumberings."""
-    from synkit.IO.chem_converter import smart_to_gml, its_to_gml, gml_to_its, rsmi_to_its, rsmi_to_graph
+def smarts_of(rsmi):
+    """(reaction SMARTS, lossless?) by RDKit; lossless = RDKit reads the SMARTS back to the same molecules on both sides (RDKit's
+    SMARTS printer drops the hydrogen of an aromatic [nH], for instance: then the SMARTS is another reaction and nothing is asked)."""
+    from rdkit.Chem import rdChemReactions
+    Chem = rd()
+    try:
+        sm = rdChemReactions.ReactionToSmarts(rdChemReactions.ReactionFromSmarts(rsmi, useSmiles=True))
+        rs2 = rdChemReactions.ReactionToSmiles(rdChemReactions.ReactionFromSmarts(sm, useSmiles=False))
+    except Exception:
+        return None, False
+
+    def norm(x):
+        out = []
+        for side in x.split(">>"):
+            m = Chem.MolFromSmiles(side)
+            if m is None:
+                return None
+            out.append(Chem.MolToSmiles(m, isomericSmiles=False))
+        return out
+    a, b = norm(rsmi), norm(rs2)
+    return sm, (a is not None and a == b)
+
+
+def check_routes(ctx, B, rsmi, origin, base_view=None, extra=None):
+    """-> view graph (json, via callback list) of the centre rule, for comparison across renumberings.
+    `extra`: which of the additional routes are driven - None draws them from the run PRNG (and records them in the case)."""
+    from synkit.IO.chem_converter import smart_to_gml, its_to_gml, gml_to_its, rsmi_to_its, rsmi_to_graph, gml_to_smart
     from synkit.Graph.ITS.its_decompose import get_rc
-    case = {"kind": "rsmi", "rsmi": rsmi, "origin": origin}
+    if extra is None:
+        extra = {"smarts": ctx.rnd.random() < 0.4, "explicit": ctx.rnd.random() < 0.4, "back": ctx.rnd.random() < 0.2,
+                 "name": ctx.rnd.choice(RULE_NAMES)}
+    case = {"kind": "rsmi", "rsmi": rsmi, "origin": origin, "extra": extra}
     try:
         its = rsmi_to_its(rsmi)
         rc = get_rc(its)
@@ -749,10 +796,39 @@ def check_routes(ctx, B, rsmi, origin, base_view=None):
             exports[("its_centre", True, reindex)] = its_to_gml(copy.deepcopy(rc), core=True, reindex=reindex)
             exports[("smart", False, reindex)] = smart_to_gml(rsmi, core=False, reindex=reindex)
             exports[("its_full", False, reindex)] = its_to_gml(copy.deepcopy(its), core=False, reindex=reindex)
+            # the centre asked from the importer itself: rsmi_to_its(rsmi, core=True)
+            exports[("its_corearg", True, reindex)] = its_to_gml(rsmi_to_its(rsmi, core=True), core=True, reindex=reindex)
+        if extra.get("explicit"):
+            # explicit_hydrogen=True, both entry points (ids are not re-indexed: the hydrogens get the same ids on both routes)
+            for core in (True, False):
+                exports[("smart_x", core, False)] = smart_to_gml(rsmi, core=core, reindex=False, explicit_hydrogen=True, rule_name=extra["name"])
+                exports[("its_full_x", core, False)] = its_to_gml(copy.deepcopy(its), core=core, reindex=False, explicit_hydrogen=True, rule_name=extra["name"])
+        smarts_ok = False
+        if extra.get("smarts"):
+            sm, smarts_ok = smarts_of(rsmi)
+            ctx.count("d:smarts:lossless" if smarts_ok else "d:smarts:lossy_or_unreadable(skipped)")
+            if smarts_ok:
+                exports[("smart_smarts", True, False)] = smart_to_gml(sm, core=True, useSmiles=False)
+                exports[("smart_smarts", False, False)] = smart_to_gml(sm, core=False, useSmiles=False)
+                # the hydrogen counts are part of the reaction as well: with explicit hydrogens the two strings must give rules of
+                # the same size (the SMARTS text is a SMILES-readable string too, only without its hydrogens)
+                exports[("smart_smarts_x", False, False)] = smart_to_gml(sm, core=False, useSmiles=False, explicit_hydrogen=True)
+                exports[("smart_smiles_x", False, False)] = smart_to_gml(rsmi, core=False, explicit_hydrogen=True)
         back = {k: enc(gml_to_its(v)) for k, v in exports.items()}
+        rc_arg = enc(rsmi_to_its(rsmi, core=True))
     except Exception as e:
         V(ctx, "d", "a GML export route raised", case, {"error": repr(e)})
         return None
+    # GML -> reaction string -> GML: not part of the property (the rule string carries no hydrogens); executed and recorded
+    rs_back = None
+    if extra.get("back"):
+        try:
+            rs_back = gml_to_smart(exports[("smart", True, False)])
+            gml_back = smart_to_gml(rs_back, core=True) if rs_back else None
+            back_again = enc(gml_to_its(gml_back)) if gml_back else None
+        except Exception:
+            back_again = None
+        ctx.count("d:gml_to_smart:calls(recorded, not gated)")
     views = {}
     # model = impl for the two entry points (items per section)
     rj, pj, itsj = enc(r), enc(p), enc(its)
@@ -765,6 +841,12 @@ def check_routes(ctx, B, rsmi, origin, base_view=None):
         B.add({"cmd": "gml.read", "text": exports[("smart", core, False)]}, lambda rep, core=core: views.__setitem__(("impl_smart", core), rep))
     B.add({"cmd": "gml.itsToGml", "its": itsj, "core": True, "reindex": False}, lambda rep: views.__setitem__(("model_itsfull", True), rep))
     B.add({"cmd": "gml.read", "text": exports[("its_full", True, False)]}, lambda rep: views.__setitem__(("impl_itsfull", True), rep))
+    B.add({"cmd": "gml.getRc", "its": itsj}, lambda rep: views.__setitem__("model_rc", rep))
+    if extra.get("explicit"):
+        for core in (True, False):
+            B.add({"cmd": "gml.smartToGmlX", "r": rj, "p": pj, "core": core, "reindex": False, "explicit": True, "name": extra["name"]},
+                  lambda rep, core=core: views.__setitem__(("model_smart_x", core), rep))
+            B.add({"cmd": "gml.read", "text": exports[("smart_x", core, False)]}, lambda rep, core=core: views.__setitem__(("impl_smart_x", core), rep))
     result = {}
 
     def stage2(_):
@@ -774,8 +856,34 @@ def check_routes(ctx, B, rsmi, origin, base_view=None):
                       (("smart", True, reindex), ("its_centre", True, reindex), "smart_to_gml(rsmi) vs its_to_gml(centre)"),
                       (("its_full", True, reindex), ("its_centre", True, reindex), "its_to_gml(full ITS, core=True) vs its_to_gml(centre)"),
                       (("smart", False, reindex), ("its_full", False, reindex), "smart_to_gml(rsmi, core=False) vs its_to_gml(full ITS, core=False)")]
+            pairs.append((("smart", True, reindex), ("its_corearg", True, reindex), "smart_to_gml(rsmi) vs its_to_gml(rsmi_to_its(rsmi, core=True))"))
         pairs.append((("smart", True, False), ("smart", True, True), "smart_to_gml reindex=False vs reindex=True"))
+        xpairs = []
+        if extra.get("explicit"):
+            ctx.count("d:explicit_hydrogen_routes")
+            for core in (True, False):
+                xpairs.append((("smart_x", core, False), ("its_full_x", core, False),
+                               f"smart_to_gml(rsmi, core={core}, explicit_hydrogen=True) vs its_to_gml(full ITS, core={core}, explicit_hydrogen=True)"))
+        if ("smart_smarts", True, False) in exports:
+            pairs.append((("smart", True, False), ("smart_smarts", True, False), "smart_to_gml(reaction SMILES) vs smart_to_gml(reaction SMARTS, useSmiles=False)"))
+            pairs.append((("smart", False, False), ("smart_smarts", False, False), "smart_to_gml(reaction SMILES, core=False) vs smart_to_gml(reaction SMARTS, core=False, useSmiles=False)"))
+        if ("smart_smarts_x", False, False) in exports:
+            xpairs.append((("smart_smiles_x", False, False), ("smart_smarts_x", False, False),
+                           "smart_to_gml(reaction SMILES, core=False, explicit_hydrogen=True) vs smart_to_gml(reaction SMARTS, useSmiles=False, core=False, explicit_hydrogen=True)"))
         done = {"v": False}
+        for a, b, what in xpairs:
+            def cbx(rep, a=a, b=b, what=what):
+                ctx.count("d:route_pairs")
+                if not rep and not done["v"]:
+                    done["v"] = True
+                    V(ctx, "d", "two documented ways of producing the GML rule of a reaction give non-equivalent rules: " + what,
+                      case, {"a": exports[a], "b": exports[b]})
+            equiv(B, back[a], back[b], cbx, iso_limit=24, undecided=lambda: ctx.count("d:explicit_pair_undecided(ids differ, too large to search)"))
+        if extra.get("back") and back_again is not None:
+            equiv(B, back[("smart", True, False)], back_again,
+                  lambda rep: ctx.count("d:gml_to_smart:rule survives GML -> string -> GML (recorded)" if rep else "d:gml_to_smart:rule differs after GML -> string -> GML (recorded, not gated)"))
+        elif extra.get("back"):
+            ctx.count("d:gml_to_smart:no string / not re-importable (recorded, not gated)")
         for a, b, what in pairs:
             def cb(rep, a=a, b=b, what=what):
                 ctx.count("d:route_pairs")
@@ -797,9 +905,19 @@ def check_routes(ctx, B, rsmi, origin, base_view=None):
             # only when the specification gate is silent: then a difference is a broken correspondence, not a failing input
             if done["v"]:
                 return
+            mrc = views.get("model_rc")
+            keys_n, keys_e = ["element", "charge", "typesGH", "atom_map"], ["order", "standard_order"]
+            if mrc is not None and canon_graph(mrc, keys_n, keys_e) != canon_graph(rc_arg, keys_n, keys_e):
+                V(ctx, "d", "rsmi_to_its(rsmi, core=True) differs from the model's getRc of the full ITS", case,
+                  {"impl": canon_graph(rc_arg, keys_n, keys_e), "model": canon_graph(mrc, keys_n, keys_e)}, no_input=True)
+                return
             for key_m, key_i, what in ((("model_smart", True), ("impl_smart", True), "smart_to_gml(core=True)"),
                                        (("model_smart", False), ("impl_smart", False), "smart_to_gml(core=False)"),
-                                       (("model_itsfull", True), ("impl_itsfull", True), "its_to_gml(full ITS, core=True)")):
+                                       (("model_itsfull", True), ("impl_itsfull", True), "its_to_gml(full ITS, core=True)"),
+                                       (("model_smart_x", True), ("impl_smart_x", True), "smart_to_gml(core=True, explicit_hydrogen=True)"),
+                                       (("model_smart_x", False), ("impl_smart_x", False), "smart_to_gml(core=False, explicit_hydrogen=True)")):
+                if key_m[0] == "model_smart_x" and not extra.get("explicit"):
+                    continue
                 m, i = views.get(key_m), views.get(key_i)
                 if m is None or i is None or is_err(m) or is_err(i):
                     ctx.count("d:model_compare_skipped")
@@ -808,9 +926,759 @@ def check_routes(ctx, B, rsmi, origin, base_view=None):
                     V(ctx, "d", f"{what} writes other items than the model", case,
                       {"impl": norm_items(i["rule"]), "model": norm_items(m["rule"])}, no_input=True)
                     return
+                if key_m[0] == "model_smart_x" and f'ruleID "{extra["name"]}"' not in exports[("smart_x", key_m[1], False)]:
+                    V(ctx, "d", f"{what} does not write the rule name it was given", case, {"impl": exports[("smart_x", key_m[1], False)][:200]}, no_input=True)
+                    return
         defer(B, 5, itsj, model_compare)
     B.add({"cmd": "gml.shape", "its": itsj}, stage2)
     return result
+
+
+# ================================================================== coverage-gap streams (options / alternative entry points)
+CORE_EDGE = ["order"]
+RULE_NAMES = ["rule", "R17", "my rule", "left", "node", "context 2"]
+
+
+def sanitised(s):
+    Chem = rd()
+    mol = Chem.MolFromSmiles(s, sanitize=False)
+    if mol is None:
+        return None
+    try:
+        Chem.SanitizeMol(mol)
+    except Exception:
+        return None
+    return mol if mol.GetNumAtoms() else None
+
+
+def mol_norm(smi):
+    """The molecule behind a SMILES string with its hydrogens implicit (RDKit trusted): atom maps of hydrogens are cleared and
+    RemoveHs folds them into their heavy atom (H2, H+, H- have none and stay); the maps of the heavy atoms are kept; canonical
+    SMILES with stereo stripped."""
+    Chem = rd()
+    if smi is None:
+        return None
+    m = Chem.MolFromSmiles(smi)
+    if m is None:
+        return None
+    for a in m.GetAtoms():
+        if a.GetAtomicNum() == 1:
+            a.SetAtomMapNum(0)
+    try:
+        m = Chem.RemoveHs(m)
+    except Exception:
+        return None
+    return Chem.MolToSmiles(m, isomericSmiles=False)
+
+
+def core_json(G, keys=None):
+    return graphio.graph(G, node_keys=NODE_KEYS if keys is None else keys, edge_keys=CORE_EDGE)
+
+
+def partially_mapped(side, rnd):
+    """a mapped molecule with the atom map cleared on some atoms (at least one cleared, at least one kept) and the remaining map
+    numbers shifted by 0 or 60 (with 0 a map number may coincide with the index-based id of an unmapped atom: NetworkX merges the
+    two nodes, the model answers `unsupported` and the case is counted)."""
+    Chem = rd()
+    m = Chem.MolFromSmiles(side)
+    if m is None:
+        return None
+    mapped = [a for a in m.GetAtoms() if a.GetAtomMapNum()]
+    if len(mapped) < 2:
+        return None
+    off = rnd.choice([0, 60, 60])
+    clear = [a for a in mapped if rnd.random() < 0.35]
+    if not clear:
+        clear = [rnd.choice(mapped)]
+    if len(clear) == len(mapped):
+        clear = clear[1:]
+    ids = {a.GetIdx() for a in clear}
+    for a in mapped:
+        a.SetAtomMapNum(0 if a.GetIdx() in ids else a.GetAtomMapNum() + off)
+    return Chem.MolToSmiles(m)
+
+
+MOL_VARIANTS = [
+    ("MolToGraph(attr_profile='full').transform", dict(attr_profile="full"), NODE_KEYS),
+    ("MolToGraph(node_attrs=None, edge_attrs=None).transform", dict(), NODE_KEYS),
+    ("MolToGraph(with_topology=True).transform", dict(node_attrs=NODE_KEYS, edge_attrs=["order"], with_topology=True), NODE_KEYS),
+    ("MolToGraph(node_attrs=[element, charge, hcount, atom_map]).transform",
+     dict(node_attrs=["element", "charge", "hcount", "atom_map"], edge_attrs=["order"]), ["element", "charge", "hcount", "atom_map"]),
+]
+
+
+def check_mol_options(ctx, B, s, tag):
+    """(a2) the id options, the attribute selection and the legacy entry points of the molecule -> graph converter, and
+    graph_to_mol without hydrogen counts: impl = model (`repr.molToGraphOpt`) on RDKit's table, and the graph goes back to the same
+    molecule whenever no atom was dropped."""
+    from synkit.IO.chem_converter import smiles_to_graph, graph_to_smi
+    from synkit.IO.mol_to_graph import MolToGraph
+    from synkit.IO.graph_to_mol import GraphToMol
+    Chem = rd()
+    mol = sanitised(s)
+    if mol is None:
+        ctx.count("a2:skipped_unsanitisable")
+        return
+    case = {"kind": "molopt", "smiles": s}
+    T = table(mol)
+    nmap = sum(1 for a in T["atoms"] if a["atom_map"])
+    kind = "unmapped" if nmap == 0 else ("fully_mapped" if nmap == len(T["atoms"]) else "partially_mapped")
+    ctx.count(f"a2:molecules:{kind}")
+    ctx.count(f"a2:{tag}")
+    ctx.case(["molopt", s], nontrivial=len(T["atoms"]) >= 2, sample={"stream": "mol-options:" + tag, "smiles": s})
+    c1 = Chem.MolToSmiles(Chem.MolFromSmiles(s), isomericSmiles=False)
+    impl = []          # (label, (useIdx, drop), node order compared?, node keys, graph)
+    state = {"viol": False}
+
+    def bad(what, detail=None, no_input=False):
+        if not state["viol"]:
+            state["viol"] = True
+            V(ctx, "a", what, case, detail, no_input=no_input)
+
+    def call(label, fn):
+        try:
+            return fn()
+        except Exception as e:
+            bad(f"{label} raised on a sanitisable molecule", {"error": repr(e)})
+            return None
+    for useIdx, drop in ((True, False), (True, True)):
+        label = f"smiles_to_graph(use_index_as_atom_map={useIdx}, drop_non_aam={drop})"
+        impl.append((label, (useIdx, drop), True, NODE_KEYS,
+                     call(label, lambda: smiles_to_graph(s, drop_non_aam=drop, use_index_as_atom_map=useIdx))))
+    impl.append(("smiles_to_graph(node_attrs=None, edge_attrs=None)", (False, False), True, NODE_KEYS,
+                 call("smiles_to_graph(node_attrs=None)", lambda: smiles_to_graph(s, node_attrs=None, edge_attrs=None))))
+    try:
+        g_err = smiles_to_graph(s, drop_non_aam=True)
+    except Exception:
+        g_err = "raised"
+    ctx.count("a2:drop_non_aam without use_index_as_atom_map -> %s (recorded, not gated)" % ("None" if g_err is None else "other"))
+    for label, kw, keys in MOL_VARIANTS:
+        impl.append((label, (False, False), True, keys, call(label, lambda: MolToGraph(**kw).transform(sanitised(s)))))
+    for lw in (True, False):
+        for useIdx, drop in ((False, False), (True, False), (True, True)):
+            label = f"MolToGraph.mol_to_graph(light_weight={lw}, use_index_as_atom_map={useIdx}, drop_non_aam={drop})"
+            impl.append((label, (useIdx, drop), False, NODE_KEYS,
+                         call(label, lambda: MolToGraph.mol_to_graph(sanitised(s), drop_non_aam=drop, light_weight=lw,
+                                                                     use_index_as_atom_map=useIdx))))
+    models = {}
+    for key in ((False, False), (True, False), (True, True)):
+        B.add({"cmd": "repr.molToGraphOpt", "mol": T, "useIndex": key[0], "drop": key[1]}, lambda rep, key=key: models.__setitem__(key, rep))
+    # graph_to_mol without hydrogen counts: what is handed to RDKit carries no count (model: a graph without the hcount key)
+    g0 = smiles_to_graph(s)
+    nohj = None
+    if g0 is not None:
+        noh = copy.deepcopy(g0)
+        for _, d in noh.nodes(data=True):
+            d.pop("hcount", None)
+        nohj = enc(noh)
+        outs = {}
+        for label, G_, uh in (("graph_to_mol(use_h_count=False)", g0, False), ("graph_to_mol(graph without hcount, use_h_count=True)", noh, True)):
+            r = call(label, lambda: table_out(GraphToMol().graph_to_mol(G_, sanitize=False, use_h_count=uh)))
+            if r is not None:
+                outs[label] = r
+
+        def cb_noh(rep):
+            for label, to in outs.items():
+                if rep != to:
+                    bad(f"{label} differs from model graphToMol on the graph without counts", {"impl": to, "model": rep}, no_input=True)
+        B.add({"cmd": "repr.graphToMol", "graph": nohj}, cb_noh)
+
+    def final(_):
+        for label, key, ordered, keys, G in impl:
+            if state["viol"]:
+                return
+            mod = models[key]
+            if is_err(mod):
+                ctx.count("a2:id_collision(model unsupported, not compared)")
+                continue
+            if G is None:
+                bad(f"{label} returned None for a sanitisable molecule")
+                continue
+            ctx.count("a2:conversions_compared")
+            gj = core_json(G, keys)
+            # specification: whenever no atom is dropped the graph goes back to the same molecule
+            if not key[1] or kind == "fully_mapped":
+                s2 = graph_to_smi(G)
+                m2 = Chem.MolFromSmiles(s2) if s2 is not None else None
+                c2 = Chem.MolToSmiles(m2, isomericSmiles=False) if m2 is not None else None
+                ctx.count("a2:roundtrips")
+                if c2 != c1:
+                    bad(f"SMILES -> graph -> SMILES changed the molecule through {label}", {"canonical_in": c1, "graph_to_smi": s2, "canonical_out": c2})
+                    return
+            if canon_graph(gj, keys, CORE_EDGE) != canon_graph(mod, keys, CORE_EDGE) or (ordered and node_order(gj) != node_order(mod)):
+                bad(f"{label} differs from model molToGraphOpt on RDKit's atom/bond table",
+                    {"impl": canon_graph(gj, keys, CORE_EDGE), "model": canon_graph(mod, keys, CORE_EDGE)}, no_input=True)
+        if kind == "partially_mapped" and not is_err(models[(True, True)]):
+            ctx.count("a2:atoms_dropped", len(T["atoms"]) - len(models[(True, True)]["nodes"]))
+            ctx.count("a2:bonds_to_a_dropped_atom", sum(1 for a, b, _ in T["bonds"] if (T["atoms"][a]["atom_map"] == 0) != (T["atoms"][b]["atom_map"] == 0)))
+    B.add({"cmd": "gml.shape", "its": {"nodes": [], "edges": []}}, final)
+
+
+def explicit_mapped(s, rnd=None, pres=None):
+    """the graph of molecule `s` with its hydrogens made explicit by the harness (one node per counted hydrogen, atom map = node id)
+    -> (graph, list of the hydrogen maps)."""
+    from synkit.IO.chem_converter import smiles_to_graph
+    g = smiles_to_graph(s)
+    if g is None:
+        return None, []
+    E = copy.deepcopy(g)
+    nxt = max(E.nodes, default=0)
+    hs = []
+    for n in list(g.nodes):
+        k = E.nodes[n].get("hcount", 0)
+        for _ in range(k):
+            nxt += 1
+            E.add_node(nxt, element="H", aromatic=False, hcount=0, charge=0, neighbors=[], atom_map=nxt)
+            E.add_edge(n, nxt, order=1.0)
+            hs.append(nxt)
+        E.nodes[n]["hcount"] = 0
+    return E, hs
+
+
+def check_smi_preserve(ctx, B, s, tag, pres=None):
+    """(a2) graph_to_smi(graph, preserve_atom_maps=[...]) on a molecule whose hydrogens are explicit nodes: some stay explicit,
+    the others are folded back; the molecule must be the same (hydrogens implicit on both sides, RDKit trusted)."""
+    from synkit.IO.chem_converter import graph_to_smi
+    if sanitised(s) is None:
+        return
+    E, hs = explicit_mapped(s)
+    if E is None or not hs or len(hs) > 40:
+        ctx.count("a2:preserve:skipped(no hydrogens / too many)")
+        return
+    if pres is None:
+        pres = [h for h in hs if ctx.rnd.random() < 0.4] or [ctx.rnd.choice(hs)]
+    pres = sorted(int(x) for x in pres)
+    case = {"kind": "smipres", "smiles": s, "preserve": pres}
+    ctx.count("a2:preserve:molecules")
+    ctx.case(["smipres", s, pres], nontrivial=True, sample={"stream": "graph_to_smi-preserve:" + tag, "smiles": s, "preserve": pres})
+    c0 = mol_norm(s)
+    out = graph_to_smi(copy.deepcopy(E), preserve_atom_maps=list(pres))
+    c = mol_norm(out)
+    if c0 is None:
+        ctx.count("a2:preserve:reference_not_computable")
+    elif c != c0:
+        V(ctx, "a", "graph_to_smi with preserve_atom_maps changed the molecule (hydrogens implicit on both sides)", case,
+          {"before": c0, "after": c, "raw": out})
+        return
+    elif out is not None and sum(1 for h in pres if f":{h}]" in out) != len(pres):
+        # the call site of implicit_hydrogen inside graph_to_smi (the function itself is compared with the model below)
+        V(ctx, "a", "graph_to_smi(preserve_atom_maps) differs from the model: graphToMol after implicitHydrogen with that list keeps the "
+                    "named hydrogens as atoms", case, {"raw": out}, no_input=True)
+        return
+    check_hgraph(ctx, B, E, "molecule-explicit-mapped", pres=pres)
+
+
+def all_mapped(side):
+    Chem = rd()
+    m = Chem.MolFromSmiles(side)
+    return m is not None and m.GetNumAtoms() > 0 and all(a.GetAtomMapNum() for a in m.GetAtoms())
+
+
+def check_graph_to_rsmi(ctx, B, rsmi, origin):
+    """(a2) graph_to_rsmi(r, p, its, explicit_hydrogen): each side is a molecule that must come back unchanged (hydrogens implicit on
+    both sides of the comparison; the atom maps of the heavy atoms are part of it)."""
+    from synkit.IO.chem_converter import rsmi_to_graph, graph_to_rsmi, rsmi_to_its
+    case = {"kind": "g2rsmi", "rsmi": rsmi, "origin": origin}
+    sides = rsmi.split(">>")
+    if len(sides) != 2 or not all(all_mapped(x) for x in sides):
+        ctx.count("a2:graph_to_rsmi:skipped_not_fully_mapped")
+        return
+    try:
+        r, p = rsmi_to_graph(rsmi)
+    except Exception:
+        r = p = None
+    if r is None or p is None:
+        ctx.count("a2:graph_to_rsmi:skipped_unsanitisable")
+        return
+    ref = [mol_norm(x) for x in sides]
+    if None in ref:
+        ctx.count("a2:graph_to_rsmi:reference_not_computable")
+        return
+    ctx.count("a2:graph_to_rsmi:reactions")
+    ctx.case(["g2rsmi", rsmi], nontrivial=True, sample={"stream": "graph_to_rsmi", "rsmi": rsmi[:200]})
+    variants = [("its=None", None, False), ("explicit_hydrogen=True", None, True)]
+    if set(r.nodes) == set(p.nodes):
+        try:
+            variants.append(("its given", rsmi_to_its(rsmi), False))
+        except Exception:
+            pass
+    if any(d.get("element") == "H" for _, d in r.nodes(data=True)) or any(d.get("element") == "H" for _, d in p.nodes(data=True)):
+        ctx.count("a2:graph_to_rsmi:with_explicit_hydrogen_atoms")
+    for label, its, eh in variants:
+        try:
+            out = graph_to_rsmi(copy.deepcopy(r), copy.deepcopy(p), copy.deepcopy(its), True, eh)
+        except Exception as e:
+            out = None
+        got = [mol_norm(x) for x in out.split(">>")] if out is not None and out.count(">>") == 1 else None
+        ctx.count("a2:graph_to_rsmi:calls")
+        if got != ref:
+            V(ctx, "a", f"graph_to_rsmi ({label}) does not give back the molecules of the reaction", case, {"out": out, "expected": ref, "got": got})
+            return
+
+
+def explicit_h_variant(rsmi, rnd):
+    """The same reaction with one or two hydrogens written as mapped explicit atoms (RDKit does the editing): a hydrogen that
+    moves from an atom losing one to an atom gaining one (so that it belongs to the reaction centre), and/or a hydrogen that stays on
+    its atom. None when the reaction has no such hydrogen."""
+    Chem = rd()
+    sides = rsmi.split(">>")
+    if len(sides) != 2:
+        return None
+    ms = [Chem.MolFromSmiles(x) for x in sides]
+    if any(m is None for m in ms) or not all(all(a.GetAtomMapNum() for a in m.GetAtoms()) for m in ms):
+        return None
+    hc = [{a.GetAtomMapNum(): a.GetTotalNumHs() for a in m.GetAtoms() if a.GetAtomicNum() > 1} for m in ms]
+    common = sorted(set(hc[0]) & set(hc[1]))
+    donors = [m for m in common if hc[0][m] - hc[1][m] >= 1]
+    acceptors = [m for m in common if hc[1][m] - hc[0][m] >= 1]
+    keep = [m for m in common if hc[0][m] >= 1 and hc[1][m] >= 1]
+    nxt = max(max(hc[0], default=0), max(hc[1], default=0), max((a.GetAtomMapNum() for m in ms for a in m.GetAtoms()), default=0)) + 1
+    plan = []
+    if donors and acceptors and rnd.random() < 0.8:
+        plan.append((rnd.choice(donors), rnd.choice(acceptors), nxt))
+        nxt += 1
+    if keep and (not plan or rnd.random() < 0.5):
+        m = rnd.choice(keep)
+        if not any(m in (a, b) for a, b, _ in plan):
+            plan.append((m, m, nxt))
+    if not plan:
+        return None
+    out = []
+    for i, m in enumerate(ms):
+        rw = Chem.RWMol(m)
+        for a, b, hmap in plan:
+            target = a if i == 0 else b
+            atom = next(x for x in rw.GetAtoms() if x.GetAtomMapNum() == target)
+            tot = atom.GetTotalNumHs()
+            if tot < 1:
+                return None
+            atom.SetNoImplicit(True)
+            atom.SetNumExplicitHs(tot - 1)
+            h = Chem.Atom(1)
+            h.SetAtomMapNum(hmap)
+            rw.AddBond(atom.GetIdx(), rw.AddAtom(h), Chem.BondType.SINGLE)
+        try:
+            Chem.SanitizeMol(rw)
+        except Exception:
+            return None
+        out.append(Chem.MolToSmiles(rw))
+    new = ">>".join(out)
+    if [mol_norm(x) for x in new.split(">>")] != [mol_norm(x) for x in sides]:
+        return None
+    return new
+
+
+EXPLICIT_H_REACTIONS = [
+    "[H:1][Cl:2].[NH3:3]>>[H:1][NH3+:3].[Cl-:2]",
+    "[CH3:1][H:2].[Cl:3][Cl:4]>>[CH3:1][Cl:3].[H:2][Cl:4]",
+    "[H:1][H:2].[CH2:3]=[CH2:4]>>[H:1][CH2:3][CH2:4][H:2]",
+    "[H:1][Cl:2].[NH3:3].[H+:4]>>[H:1][NH3+:3].[Cl-:2].[H+:4]",
+    "[H:1][O:2][H:3].[CH3:4][C:5](=[O:6])[O:7][CH3:8]>>[H:1][O:2][C:5]([CH3:4])=[O:6].[H:3][O:7][CH3:8]",
+]
+
+
+def record_error_paths(ctx):
+    """Error paths next to the property (it speaks about sanitisable molecules and well-formed reaction strings only): executed and
+    recorded, nothing is gated on them."""
+    from synkit.IO.chem_converter import smiles_to_graph, graph_to_smi, rsmi_to_graph
+    import networkx as nx
+    for s in ("CC(C)(C)(C)(C)C", "c1ccccc1C(F)(F)(F)(F)F", "C1=CC=CN1=O(=O)=O"):
+        try:
+            g = smiles_to_graph(s)
+        except Exception:
+            g = "raised"
+        ctx.count("a2:error-path:smiles_to_graph(unsanitisable) -> %s (recorded)" % ("None" if g is None else "other"))
+    for s in ("CCO", "CC>O>CC", "C>>C>>C"):
+        try:
+            r = rsmi_to_graph(s)
+        except Exception:
+            r = "raised"
+        ctx.count("a2:error-path:rsmi_to_graph(no single '>>') -> %s (recorded)" % ("(None, None)" if r == (None, None) else "other"))
+    G = nx.Graph()
+    G.add_node(1, element="C", charge=0, hcount=0, atom_map=0)
+    for i in range(2, 8):
+        G.add_node(i, element="C", charge=0, hcount=3, atom_map=0)
+        G.add_edge(1, i, order=1.0)
+    try:
+        r = graph_to_smi(G)
+    except Exception:
+        r = "raised"
+    ctx.count("a2:error-path:graph_to_smi(valence error) -> %s (recorded)" % ("None" if r is None else "other"))
+
+
+# ------------------------------------------------------------------ (b2) options of the hydrogen conversions
+def check_hopts(ctx, B, G, tag, ns=None, pres=None):
+    """h_to_explicit(G, nodes) for a node list (absent and repeated ids included), h_to_explicit(G, None, its=True),
+    implicit_hydrogen(G, preserve, reindex=True): impl = model (`h.explicitOpt`, `h.implicitHydrogenReindex`); the specification
+    (total hydrogen count; making the chosen hydrogens explicit and all implicit again restores G under the guard) is evaluated by
+    the Lean driver on what the implementation returned."""
+    from synkit.Graph.Hyrogen._misc import h_to_explicit, h_to_implicit, implicit_hydrogen
+    rnd = ctx.rnd
+    gj = enc(G)
+    nodes = list(G.nodes)
+    if not nodes:
+        return
+    if ns is None:
+        ns = [n for n in nodes if rnd.random() < 0.5]
+        if rnd.random() < 0.35:
+            ns.append(max(nodes) + rnd.randint(1, 4))
+        if ns and rnd.random() < 0.3:
+            ns.append(rnd.choice(ns))
+        rnd.shuffle(ns)
+        if not ns:
+            ns = [rnd.choice(nodes)]
+    ns = [int(x) for x in ns]
+    hmaps = sorted({d.get("atom_map") for _, d in G.nodes(data=True) if d.get("element") == "H" and isinstance(d.get("atom_map"), int) and d.get("atom_map") >= 0})
+    if pres is None:
+        pres = [m for m in hmaps if rnd.random() < 0.5]
+    pres = sorted({int(m) for m in pres})
+    case = {"kind": "hopt", "graph": gj, "nodes": ns, "preserve": pres}
+    En, _ = impl_h(lambda g_: h_to_explicit(g_, list(ns)), G)
+    Ei, _ = impl_h(lambda g_: h_to_explicit(g_, None, True), G)
+    Pr, _ = impl_h(lambda g_: implicit_hydrogen(g_, set(pres), True), G)
+    if is_err(En) or is_err(Ei):
+        ctx.count("b2:impl_error")
+        return
+    IEn, _ = impl_h(h_to_implicit, graphio.to_nx(En))
+    info, models = {}, {}
+    for name, j in (("g", gj), ("En", En), ("Ei", Ei), ("IEn", IEn)) + ((("Pr", Pr),) if not is_err(Pr) else ()):
+        if not is_err(j):
+            B.add({"cmd": "h.info", "graph": j}, lambda rep, name=name: info.__setitem__(name, rep))
+    B.add({"cmd": "h.explicitOpt", "graph": gj, "nodes": ns, "its": False}, lambda rep: models.__setitem__("En", rep))
+    B.add({"cmd": "h.explicitOpt", "graph": gj, "nodes": [], "its": True}, lambda rep: models.__setitem__("Ei", rep))
+    B.add({"cmd": "h.implicitHydrogenReindex", "graph": gj, "preserve": pres}, lambda rep: models.__setitem__("Pr", rep))
+    B.add({"cmd": "h.implicit", "graph": En}, lambda rep: models.__setitem__("IEn", rep))
+    state = {"viol": False}
+
+    def bad(what, detail, no_input=False):
+        if not state["viol"]:
+            state["viol"] = True
+            V(ctx, "b", what, case, detail, no_input=no_input)
+
+    def final(_):
+        ig = info["g"]
+        ctx.count(f"b2:{tag}")
+        ctx.case(["hopt", canon_graph(gj), ns, pres], nontrivial=ig["totalH"] != 0,
+                 sample={"stream": "h-options:" + tag, "graph": gj, "nodes": ns} if G.number_of_nodes() <= 3 else None)
+        if any(n not in G for n in ns):
+            ctx.count("b2:node_list_with_absent_id")
+        if len(set(ns)) < len(ns):
+            ctx.count("b2:node_list_with_repeated_id")
+        if not ig["typed"] or not ig["wf"]:
+            ctx.count("b2:outside_domain")
+            return
+        expanded = sum(1 for n in set(ns) if n in G and isinstance(G.nodes[n].get("hcount"), int) and G.nodes[n].get("hcount") > 0)
+        ctx.count("b2:node_list_expands_something" if expanded else "b2:node_list_expands_nothing")
+        # ---- specification
+        if info["En"]["totalH"] != ig["totalH"]:
+            bad("h_to_explicit(G, nodes) changes the total hydrogen count", {"nodes": ns, "before": ig["totalH"], "after": info["En"]["totalH"]})
+        if info["Ei"]["totalH"] != ig["totalH"]:
+            bad("h_to_explicit(G, None, its=True) changes the total hydrogen count", {"before": ig["totalH"], "after": info["Ei"]["totalH"]})
+        if ig["guard"]:
+            ctx.count("b2:guard_holds")
+            if not h_equal(IEn, gj):
+                bad("h_to_implicit(h_to_explicit(g, nodes)) does not restore g although no explicit hydrogen is bonded to a heavy atom",
+                    {"nodes": ns, "g": canon_graph(gj), "back": IEn if is_err(IEn) else canon_graph(IEn)})
+        if not is_err(Pr):
+            ctx.count("b2:implicit_hydrogen(reindex=True):calls")
+            if "Pr" in info and ig["valence"] and info["Pr"]["totalH"] != ig["totalH"]:
+                bad("implicit_hydrogen(reindex=True) changes the total hydrogen count although hydrogens are monovalent and carry no count",
+                    {"preserve": pres, "before": ig["totalH"], "after": info["Pr"]["totalH"]})
+        # ---- impl = model
+        for name, impl, what in (("En", En, "h_to_explicit(G, nodes)"), ("Ei", Ei, "h_to_explicit(G, None, its=True)"),
+                                 ("IEn", IEn, "h_to_implicit after h_to_explicit(G, nodes)"), ("Pr", Pr, "implicit_hydrogen(reindex=True)")):
+            mod = models[name]
+            if is_err(mod) and mod["err"] == "unsupported":
+                ctx.count("b2:model_unsupported")
+                continue
+            if not h_equal(impl, mod):
+                bad(f"{what} differs from the model", {"impl": impl if is_err(impl) else canon_graph(impl),
+                                                      "model": mod if is_err(mod) else canon_graph(mod), "nodes": ns, "preserve": pres}, no_input=True)
+    B.add({"cmd": "gml.shape", "its": {"nodes": [], "edges": []}}, final)
+
+
+def side_h(I, i):
+    """total hydrogens of side i of an ITS graph: the counts in the typesGH rows plus the hydrogen atoms present on that side."""
+    tot = 0
+    for _, d in I.nodes(data=True):
+        t = d.get("typesGH")
+        if not t or len(t) < 2 or len(t[i]) < 3:
+            continue
+        row = t[i]
+        if isinstance(row[2], int):
+            tot += row[2]
+        if row[0] == "H":
+            tot += 1
+    return tot
+
+
+def check_its_explicit(ctx, B, rsmi, origin):
+    """(b2) rsmi_to_its(rsmi, explicit_hydrogen=True) = h_to_explicit(ITS, None, True) on an ITS graph (typesGH adjustment, tuple
+    orders): impl = model. Whether the product side keeps its hydrogen total is recorded, not gated (the property's hydrogen clause
+    is about molecules)."""
+    from synkit.IO.chem_converter import rsmi_to_its
+    from synkit.Graph.Hyrogen._misc import h_to_explicit
+    try:
+        I0 = rsmi_to_its(rsmi)
+        I1 = rsmi_to_its(rsmi, explicit_hydrogen=True)
+        I2 = h_to_explicit(copy.deepcopy(I0), None, True)
+    except Exception:
+        ctx.count("b2:its-explicit:error")
+        return
+    case = {"kind": "itsexp", "rsmi": rsmi, "origin": origin}
+    j0, j1, j2 = enc(I0), enc(I1), enc(I2)
+    ctx.count("b2:its-explicit:reactions")
+    ctx.case(["itsexp", rsmi], nontrivial=I1.number_of_nodes() > I0.number_of_nodes(), sample={"stream": "its-explicit", "rsmi": rsmi[:160]})
+    if side_h(I1, 0) != side_h(I0, 0):
+        ctx.count("b2:its-explicit:reactant-side hydrogen total changed (recorded, not gated)")
+    if side_h(I1, 1) != side_h(I0, 1):
+        ctx.count("b2:its-explicit:product-side hydrogen total changed (recorded, not gated: only the reactant row of typesGH is adjusted)")
+
+    def cb(rep):
+        if is_err(rep):
+            ctx.count("b2:its-explicit:model_unsupported")
+            return
+        for what, j in (("h_to_explicit(ITS, None, True)", j2), ("rsmi_to_its(explicit_hydrogen=True)", j1)):
+            if canon_graph(j) != canon_graph(rep):
+                V(ctx, "b", f"{what} differs from the model on an ITS graph", case,
+                  {"impl": canon_graph(j), "model": canon_graph(rep)}, no_input=True)
+                return
+    B.add({"cmd": "h.explicitOpt", "graph": j0, "nodes": [], "its": True}, cb)
+
+
+# ------------------------------------------------------------------ (c2) GML: explicit hydrogens, rule names, text written by someone else
+def check_its_x(ctx, B, I, tag, origin, name=None):
+    """its_to_gml(..., explicit_hydrogen=True, rule_name=...): writer impl = model (`gml.itsToGmlX`), reader impl = model on the text
+    (context edges), text format stable; specification: after re-import the rule restricted to the atoms of I is I (atoms, charges,
+    order pairs), and everything else is a hydrogen hanging on one atom of I by a (1, 1) bond, as many as the counts of I say."""
+    from synkit.IO.chem_converter import its_to_gml, gml_to_its
+    from synkit.IO.gml_to_nx import GMLToNX
+    from synkit.Graph.ITS.its_decompose import get_rc
+    try:
+        rc = get_rc(I)
+    except Exception:
+        return
+    Ij, rcj = enc(I), enc(rc)
+    if name is None:
+        name = ctx.rnd.choice(RULE_NAMES)
+    ctx.count(f"c2:explicit:{tag}")
+    ctx.case(["its-x", canon_graph(Ij, ["typesGH", "hcount"], ["order"])], nontrivial=rc.number_of_edges() >= 1,
+             sample={"stream": "explicit-hydrogen export:" + tag, "origin": origin} if isinstance(origin, str) else None)
+    for core, src, srcj in ((True, rc, rcj), (False, I, Ij)):
+        for reindex in (False, True):
+            case = {"kind": "its", "its": Ij, "core": core, "reindex": reindex, "explicit_hydrogen": True, "rule_name": name, "origin": origin}
+            try:
+                gml = its_to_gml(copy.deepcopy(src), core=core, rule_name=name, reindex=reindex, explicit_hydrogen=True)
+                L, R, _ = GMLToNX(gml).transform()
+                back = gml_to_its(gml)
+            except Exception as e:
+                V(ctx, "c", "its_to_gml(explicit_hydrogen=True) / gml_to_its raised", case, {"error": repr(e)})
+                continue
+            ctx.count("c2:explicit:exports")
+            one_export_x(ctx, B, case, gml, srcj, core, reindex, name, enc(L), enc(R), enc(back))
+
+
+def hcount_of(a):
+    v = a.get("hcount")
+    if isinstance(v, dict) and "n" in v and v["n"] % 2 == 0:
+        return max(v["n"] // 2, 0)
+    return 0
+
+
+def one_export_x(ctx, B, case, gml, srcj, core, reindex, name, Lj, Rj, backj):
+    st = {}
+    B.add({"cmd": "gml.itsToGmlX", "its": srcj, "core": core, "reindex": reindex, "explicit": True, "name": name}, lambda rep: st.__setitem__("w", rep))
+    B.add({"cmd": "gml.read", "text": gml}, lambda rep: st.__setitem__("r", rep))
+    B.add({"cmd": "gml.retext", "text": gml, "name": name}, lambda rep: st.__setitem__("t", rep))
+    B.add({"cmd": "gml.shape", "its": srcj}, lambda rep: st.__setitem__("shape", rep))
+    ids = node_order(srcj)
+    n = len(ids)
+    inv = (lambda x: ids[x - 1] if 1 <= x <= n else x) if reindex else (lambda x: x)
+    rel = relabel_json(backj, inv)
+    orig = set(ids)
+    sub = {"nodes": [x for x in rel["nodes"] if x[0] in orig], "edges": [e for e in rel["edges"] if e[0] in orig and e[1] in orig]}
+    extras = [x for x in rel["nodes"] if x[0] not in orig]
+    # expected hydrogens: the counts of the exported graph (the centre carries none)
+    want = {nid: hcount_of(a) for nid, a in srcj["nodes"]}
+    problems = []
+    if len({x[0] for x in rel["nodes"]}) != len(rel["nodes"]) or (reindex and min(ids, default=1) < 1):
+        problems.append("node ids collide after undoing the re-indexing")
+    hang = {}
+    for nid, a in extras:
+        t = graphio.unval(a["typesGH"]) if a.get("typesGH") is not None else None
+        es = [e for e in rel["edges"] if nid in (e[0], e[1])]
+        ok = (t is not None and len(t) == 2 and all(len(r) >= 4 and r[0] == "H" and r[3] == 0 for r in t) and len(es) == 1
+              and graphio.unval(es[0][2]["order"]) == (1, 1))
+        if not ok:
+            problems.append(f"extra node {nid} is not a hydrogen hanging on one atom by a (1, 1) bond")
+            continue
+        other = es[0][1] if es[0][0] == nid else es[0][0]
+        if other not in orig:
+            problems.append(f"extra hydrogen {nid} is not bonded to an atom of the rule")
+        hang[other] = hang.get(other, 0) + 1
+    if sum(hang.values()) != sum(want.values()) or (not reindex and any(hang.get(k, 0) != v for k, v in want.items())):
+        problems.append("the explicit hydrogens do not match the hydrogen counts of the exported graph")
+    if extras:
+        ctx.count("c2:explicit:exports_with_hydrogen_nodes")
+
+    def stage2(_):
+        def finish(eq):
+            if not st["shape"]:
+                ctx.count("c2:explicit:shape_fails(not gated)")
+            if st["shape"] and (not eq or problems):
+                V(ctx, "c", "gml_to_its(its_to_gml(I, explicit_hydrogen=True)) does not keep the atoms, charges and (before, after) bond orders "
+                            "of I, or adds something other than the counted hydrogens", case, {"gml": gml, "problems": problems, "same_on_the_atoms_of_I": eq})
+                return
+            w, r = st["w"], st["r"]
+            if is_err(w) and w.get("err") == "unsupported":
+                ctx.count("c2:explicit:model_unsupported")
+                return
+            if is_err(w) or is_err(r) or is_err(st["t"]):
+                V(ctx, "c", "model could not write / read the rule (explicit_hydrogen=True)", case, {"write": w if is_err(w) else None, "read": r if is_err(r) else None}, no_input=True)
+                return
+            if norm_items(w["rule"]) != norm_items(r["rule"]):
+                V(ctx, "c", "its_to_gml(explicit_hydrogen=True) writes other items than the model", case,
+                  {"impl": norm_items(r["rule"]), "model": norm_items(w["rule"])}, no_input=True)
+                return
+            if st["t"] != gml:
+                V(ctx, "c", "GML text format (rule name, explicit hydrogens) differs from the model's rendering of the same items", case,
+                  {"impl": gml, "model": st["t"]}, no_input=True)
+                return
+            for nm, impl, mod in (("left", Lj, r["graphs"]["left"]), ("right", Rj, r["graphs"]["right"]), ("its", backj, r["graphs"]["its"])):
+                if canon_graph(impl) != canon_graph(mod):
+                    V(ctx, "c", f"GMLToNX.transform ({nm} graph, rule with context edges) differs from the model reader", case,
+                      {"impl": canon_graph(impl), "model": canon_graph(mod)}, no_input=True)
+                    return
+        equiv(B, sub, srcj, finish)
+    B.add({"cmd": "gml.shape", "its": srcj}, stage2)
+
+
+def spec_label(el, c):
+    """the label syntax as documented: element, then '+', '-', '2+', '3-', ... (written here independently of the code)."""
+    if c == 0:
+        return el
+    return el + ("" if abs(c) == 1 else str(abs(c))) + ("+" if c > 0 else "-")
+
+
+ORDER_SIGN = {1: "-", 1.5: ":", 2: "=", 3: "#"}
+
+
+def foreign_gml(I, rnd, style=None):
+    """The rule of ITS graph I written the way a rule file usually comes from elsewhere: atoms and bonds that do not change in the
+    context section (context *edges*), changing bonds and charge-changing atoms in left / right; nodes before edges or after, lines
+    shuffled, sections in any order, other indentation, rule id line present or not."""
+    if style is None:
+        style = {"nodes_first": rnd.random() < 0.6, "shuffle": rnd.random() < 0.5, "sections": rnd.sample(["left", "context", "right"], 3),
+                 "indent": rnd.choice(["      ", "\t", " "]), "rule_id": rnd.random() < 0.7, "seed": rnd.randint(0, 10 ** 6)}
+    import random as _random
+    lr = _random.Random(style["seed"])          # derived from the run PRNG through the recorded seed
+    sec = {"left": ([], []), "context": ([], []), "right": ([], [])}
+    for n, d in I.nodes(data=True):
+        (el, _, _, cl, *_), (_, _, _, cr, *_) = d["typesGH"]
+        if cl != cr:
+            sec["left"][0].append(f'node [ id {n} label "{spec_label(el, cl)}" ]')
+            sec["right"][0].append(f'node [ id {n} label "{spec_label(el, cr)}" ]')
+        else:
+            sec["context"][0].append(f'node [ id {n} label "{spec_label(el, cl)}" ]')
+    for u, v, d in I.edges(data=True):
+        a, b = d["order"]
+        if lr.random() < 0.5:
+            u, v = v, u
+        if a == b:
+            sec["context"][1].append(f'edge [ source {u} target {v} label "{ORDER_SIGN[a]}" ]')
+        else:
+            if a:
+                sec["left"][1].append(f'edge [ source {u} target {v} label "{ORDER_SIGN[a]}" ]')
+            if b:
+                sec["right"][1].append(f'edge [ source {u} target {v} label "{ORDER_SIGN[b]}" ]')
+    out = ["rule ["]
+    if style["rule_id"]:
+        out.append('   ruleID "foreign"')
+    for name in style["sections"]:
+        ns_, es_ = sec[name]
+        lines = (ns_ + es_) if style["nodes_first"] else (es_ + ns_)
+        if style["shuffle"]:
+            lr.shuffle(lines)
+        out.append(f"   {name} [")
+        out += [style["indent"] + l for l in lines]
+        out.append("   ]")
+    out.append("]")
+    return "\n".join(out), style
+
+
+def check_foreign_gml(ctx, B, I, tag, origin, text=None):
+    """(c2) gml_to_its / GMLToNX on a rule text that was not written by its_to_gml: reader impl = model (`gml.read`), and the rule
+    read is the rule written (atoms, charges, (before, after) orders; Lean `ruleEqb` / `match.iso`)."""
+    from synkit.IO.chem_converter import gml_to_its
+    from synkit.IO.gml_to_nx import GMLToNX
+    Ij = enc(I)
+    if any("typesGH" not in d or len(d["typesGH"]) != 2 for _, d in I.nodes(data=True)) or \
+            any(not isinstance(d.get("order"), tuple) or any(o not in (0, 1, 1.5, 2, 3) for o in d["order"]) or d["order"] == (0, 0)
+                for _, _, d in I.edges(data=True)) or any(not isinstance(c, int) for _, d in I.nodes(data=True) for c in (d["typesGH"][0][3], d["typesGH"][1][3])):
+        ctx.count("c2:foreign:skipped_shape")
+        return
+    style = None
+    if text is None:
+        text, style = foreign_gml(I, ctx.rnd)
+    case = {"kind": "gmltext", "its": Ij, "text": text, "origin": origin}
+    try:
+        L, R, _ = GMLToNX(text).transform()
+        back = gml_to_its(text)
+    except Exception as e:
+        V(ctx, "c", "gml_to_its raised on a well-formed rule text with context edges", case, {"error": repr(e)})
+        return
+    backj = enc(back)
+    ctx.count(f"c2:foreign:{tag}")
+    in_ctx, nctx = False, 0
+    for line in text.split("\n"):
+        t = line.strip()
+        if t.endswith("[") and not t.startswith(("node", "edge")):
+            in_ctx = t.startswith("context")
+        elif in_ctx and t.startswith("edge"):
+            nctx += 1
+    ctx.count("c2:foreign:texts_with_context_edges" if nctx else "c2:foreign:texts_without_context_edges")
+    ctx.count("c2:foreign:context_edges", nctx)
+    ctx.case(["gmltext", text], nontrivial=I.number_of_edges() >= 1, sample={"stream": "foreign-gml:" + tag, "text": text} if len(text) < 500 else None)
+    st = {}
+    B.add({"cmd": "gml.read", "text": text}, lambda rep: st.__setitem__("r", rep))
+    B.add({"cmd": "gml.shape", "its": Ij}, lambda rep: st.__setitem__("shape", rep))
+
+    def stage2(_):
+        def finish(eq):
+            if not st["shape"]:
+                ctx.count("c2:foreign:shape_fails(not gated)")
+            elif not eq:
+                V(ctx, "c", "gml_to_its reads another rule than the text states (atoms, charges, (before, after) bond orders)", case,
+                  {"back": canon_graph(backj, ["typesGH"], ["order"])})
+                return
+            r = st["r"]
+            if is_err(r):
+                V(ctx, "c", "model reader could not parse a well-formed rule text", case, None, no_input=True)
+                return
+            for nm, impl, mod in (("left", enc(L), r["graphs"]["left"]), ("right", enc(R), r["graphs"]["right"]), ("its", backj, r["graphs"]["its"])):
+                if canon_graph(impl) != canon_graph(mod):
+                    V(ctx, "c", f"GMLToNX.transform ({nm} graph, foreign text) differs from the model reader", case,
+                      {"impl": canon_graph(impl), "model": canon_graph(mod)}, no_input=True)
+                    return
+        equiv(B, backj, Ij, finish)
+    B.add({"cmd": "gml.shape", "its": Ij}, stage2)
+
+
+# ------------------------------------------------------------------ (d2) reactions with unmapped atoms
+def unmap_some(rsmi, rnd):
+    """the reaction with the atom map removed from some atoms on BOTH sides (rsmi_to_graph drops them together with their bonds)
+    and, sometimes, an unmapped spectator molecule added to both sides."""
+    maps = sorted({int(x) for x in re.findall(r":(\d+)\]", rsmi)})
+    if len(maps) < 4 or rsmi.count(">>") != 1:
+        return None
+    k = rnd.randint(1, max(1, len(maps) // 5))
+    drop = set(rnd.sample(maps, k))
+    out = re.sub(r":(\d+)\]", lambda m: "]" if int(m.group(1)) in drop else m.group(0), rsmi)
+    if rnd.random() < 0.6:
+        sp = rnd.choice(["O", "[Na+]", "CCO", "c1ccccc1", "[OH-]"])
+        a, b = out.split(">>")
+        out = f"{a}.{sp}>>{sp}.{b}" if rnd.random() < 0.5 else f"{sp}.{a}>>{b}.{sp}"
+    return out
 
 
 # ------------------------------------------------------------------ streams
@@ -836,9 +1704,23 @@ def run_case(ctx, B, c):
     elif k == "hgraph":
         check_hgraph(ctx, B, graphio.to_nx(c["graph"]), "replay", smiles=c.get("smiles"), pres=c.get("preserve"))
     elif k == "its":
-        check_its(ctx, B, its_from_json(c["its"]), "replay", c.get("origin"))
+        check_its(ctx, B, its_from_json(c["its"]), "replay", c.get("origin"), rule_name=c.get("rule_name"))
+        if c.get("explicit_hydrogen"):
+            check_its_x(ctx, B, its_from_json(c["its"]), "replay", c.get("origin"), name=c.get("rule_name"))
+    elif k == "molopt":
+        check_mol_options(ctx, B, c["smiles"], "replay")
+    elif k == "smipres":
+        check_smi_preserve(ctx, B, c["smiles"], "replay", pres=c.get("preserve"))
+    elif k == "g2rsmi":
+        check_graph_to_rsmi(ctx, B, c["rsmi"], c.get("origin"))
+    elif k == "hopt":
+        check_hopts(ctx, B, graphio.to_nx(c["graph"]), "replay", ns=c.get("nodes"), pres=c.get("preserve"))
+    elif k == "itsexp":
+        check_its_explicit(ctx, B, c["rsmi"], c.get("origin"))
+    elif k == "gmltext":
+        check_foreign_gml(ctx, B, its_from_json(c["its"]), "replay", c.get("origin"), text=c["text"])
     elif k == "rsmi":
-        check_routes(ctx, B, c["rsmi"], c.get("origin"))
+        check_routes(ctx, B, c["rsmi"], c.get("origin"), extra=c.get("extra") or {"smarts": True, "explicit": True, "back": False, "name": "rule"})
         from synkit.IO.chem_converter import rsmi_to_its
         try:
             check_its(ctx, B, rsmi_to_its(c["rsmi"]), "replay", c.get("origin"))
@@ -857,7 +1739,8 @@ def its_from_json(j):
 def run(ctx):
     ctx.trusted = [
         "Lean 4.33 kernel; axioms of the property theorems as listed in obligation_list",
-        "hand-written models SynKitModel/Repr.lean and SynKitModel/Gml.lean, tied to /repo by this correspondence run",
+        "hand-written models SynKitModel/Repr.lean, SynKitModel/Gml.lean and (options, no theorem of their own) SynKitModel/ReprOpt.lean, "
+        "tied to /repo by this correspondence run",
         "RDKit: SMILES parsing/printing, sanitisation, aromaticity perception, canonical SMILES (a molecule is its atom/bond table; "
         "canonical SMILES with stereo stripped decides 'same molecule')",
         "Driver/Repr.lean JSON codec, harness/graphio.py encoder, this adapter and its canonicalisation (nodes by id, edges unordered)",
@@ -873,6 +1756,22 @@ def run(ctx):
         "hydrogen-count preservation of h_to_implicit and of implicit_hydrogen is gated only when hydrogens are monovalent and carry no "
         "count (HValence), the round trip only under the guard NoHeavyBoundH of the theorem; 'a hydrogen without heavy neighbour is kept "
         "unchanged by implicit_hydrogen' is gated on every graph the function accepts",
+        "options (streams a2/b2/c2/d2): the expected values come from the model extension SynKitModel/ReprOpt.lean (molToGraphOpt, "
+        "hToExplicitG, implicitHydrogenReindex, writeRuleX - executable model code without a property theorem of its own, tied to the "
+        "proved definitions by two `decide` examples and to the tree by this run) and from the property's own predicates evaluated on "
+        "what the implementation returned (h.info totalH, spec.gml.ruleEq / match.iso, canonical SMILES by RDKit); two atoms that get "
+        "the same node id under use_index_as_atom_map (a map number equal to the index-based id of an unmapped atom) are outside the "
+        "model and counted; `hydrogens implicit on both sides' (RDKit RemoveHs after clearing the hydrogens' atom maps) is how two "
+        "SMILES are compared when one of them keeps some hydrogens explicit (graph_to_smi with preserve_atom_maps, graph_to_rsmi)",
+        "explicit_hydrogen=True exports: the rule re-imported must equal I on the atoms of I, and every other atom must be a hydrogen "
+        "hanging on one atom of I by a (1, 1) bond, as many as the hcount attributes of the exported graph say (the reaction centre "
+        "carries no counts, so none there); node ids >= 1 (the fresh hydrogen ids lie above every re-indexed id)",
+        "recorded, NOT gated (outside what the property states): error paths (unsanitisable SMILES, reaction strings without a single "
+        "'>>', drop_non_aam without use_index_as_atom_map, a graph RDKit rejects), GML -> reaction string -> GML (gml_to_smart), and the "
+        "hydrogen totals of the two sides of an ITS graph expanded by h_to_explicit(its=True) / rsmi_to_its(explicit_hydrogen=True) "
+        "(the property's hydrogen clause is about molecules; the expansion is compared with the model as coded)",
+        "a reaction SMARTS is driven through smart_to_gml(useSmiles=False) only when RDKit reads it back to the same molecules on "
+        "both sides (its SMARTS printer is not lossless on aromatic [nH]); otherwise counted and skipped",
     ]
     ctx.gen_rule = (
         "regression corpus first; (a) every vendored molecule (corpus/c10_molecules.txt: charged, aromatic, hetero-aromatic, "
@@ -883,7 +1782,26 @@ def run(ctx):
         "implicit_hydrogen is called with a random subset of the hydrogens' atom maps) + ALL graphs with <=2 "
         "(quick) / <=3 (thorough) nodes over 5 labels; (c) all element x charge labels -12..12, a malformed-label stream, the ITS and "
         "centre of corpus reactions and of their renumberings, random synthetic ITS graphs with multiple and changing charges, each "
-        "exported core/full x reindex on/off; (d) five export routes x reindex for corpus reactions and one renumbering each.")
+        "exported core/full x reindex on/off under a rule name drawn from 6 names; (d) six export routes x reindex for corpus reactions "
+        "and one renumbering each (the centre also through rsmi_to_its(core=True)); with probability 0.4 the two entry points with "
+        "explicit_hydrogen=True, 0.4 the reaction as SMARTS (useSmiles=False), 0.2 GML -> string -> GML (recorded). "
+        "COVERAGE-GAP STREAMS: (a2) molecule converters with options on a sample of vendored molecules, mapped reaction sides and "
+        "partially mapped variants of them (atom map cleared on each atom with p=0.35, >=1 cleared, >=1 kept; maps shifted by 0/60): "
+        "smiles_to_graph with use_index_as_atom_map / drop_non_aam / node_attrs=None, MolToGraph with attr_profile=full, all "
+        "attributes, with_topology, an attribute subset, MolToGraph.mol_to_graph light-weight and detailed x 3 id options, "
+        "graph_to_mol without counts (quick 30+30+30 molecules, thorough 217+300+300); graph_to_smi(preserve_atom_maps) on molecule "
+        "graphs whose hydrogens the harness made explicit (each hydrogen preserved with p=0.4, >=1; quick 50, thorough 400), "
+        "graph_to_rsmi (its None / given / explicit_hydrogen) on corpus reactions, on 5 hand-written reactions with explicit "
+        "hydrogens and on corpus reactions where RDKit rewrote a moving and/or a staying hydrogen as a mapped atom (quick 30, "
+        "thorough all); (b2) h_to_explicit(G, nodes) with a random node list (each node p=0.5, an absent id p=0.35, a repeated id "
+        "p=0.3, shuffled), h_to_explicit(G, None, True), implicit_hydrogen(reindex=True) on molecule graphs, synthetic graphs, "
+        "free-hydrogen graphs and all graphs with <=2 nodes (quick 60+150+60+55, thorough x10 / <=3 nodes), ITS graphs of corpus "
+        "reactions through rsmi_to_its(explicit_hydrogen=True) (quick 25, thorough all); (c2) explicit_hydrogen=True exports "
+        "(core/full x reindex, named) of synthetic ITS graphs (quick 60, thorough 600) and corpus ITS graphs (quick 12, thorough "
+        "all), rule texts written by the harness with context edges / other line and section order for synthetic and corpus ITS "
+        "graphs (quick 80+25, thorough 800+all); (d2) corpus reactions with the map removed from 1..n/5 atoms on both sides and an "
+        "unmapped spectator molecule (p=0.6) through all routes (quick 12, thorough 120), hydrogen-explicit reaction variants "
+        "through all routes (quick 10, thorough 100).")
     ctx.nontrivial_rule = ("distinct by input (SMILES string / canonical graph / reaction string); molecules with >=2 atoms, hydrogen "
                            "graphs with non-zero total hydrogen count, ITS graphs and reactions with >=1 centre bond, labels with non-zero charge")
     import os
@@ -891,9 +1809,18 @@ def run(ctx):
         build_and_audit(ctx, ["SynKitProofs.Props.C10"], "SynKitProofs/Audit/C10.lean", THEOREMS)
 
     import logging
+    import time as _time
     logging.disable(logging.CRITICAL)
     rnd = ctx.rnd
     B = Batch(ctx)
+    phases, _t = {}, [ctx.t0]
+
+    def phase(name):
+        now = _time.time()
+        phases[name] = round(phases.get(name, 0) + now - _t[0], 1)
+        _t[0] = now
+        ctx.extra["phase_wall_s"] = phases
+    phase("build+audit")
     reg = load_regress()
     for c in reg:
         run_case(ctx, B, c)
@@ -907,6 +1834,7 @@ def run(ctx):
     ctx.count("population:reaction_fragments", len(rmols))
     ctx.count("population:reactions", len(reactions))
 
+    phase("regress")
     # ---- (a) + (b) on molecules
     pop = [(s, "vendored") for s in mols]
     rsel = rmols if not ctx.quick else rnd.sample(rmols, min(120, len(rmols)))
@@ -925,6 +1853,7 @@ def run(ctx):
         if gm is not None and gm.number_of_nodes():
             check_hgraph(ctx, B, gm, "mapped-side-ids")
     B.run()
+    phase("a+b molecules")
     # ---- (b) synthetic and tiny-exhaustive
     for _ in range(400 if ctx.quick else 4000):
         check_hgraph(ctx, B, synth_hgraph(rnd), "synthetic")
@@ -946,10 +1875,77 @@ def run(ctx):
         if len(ctx.violations) >= 12:
             break
     B.run()
+    phase("b synthetic/tiny")
+    # ---- (a2) options and alternative entry points of the molecule converters
+    nv_a2 = len(ctx.violations)
+    record_error_paths(ctx)
+    k = 30 if ctx.quick else 300
+    sides = mapped_sides(reactions, rnd, k)
+    pm = [x for x in (partially_mapped(sd, rnd) for sd in sides) if x]
+    for s_, tag in [(x, "vendored") for x in (rnd.sample(mols, min(30, len(mols))) if ctx.quick else mols)] + \
+                   [(x, "mapped-side") for x in sides] + [(x, "partially-mapped") for x in pm]:
+        check_mol_options(ctx, B, s_, tag)
+        if len(ctx.violations) - nv_a2 >= 6:
+            break
+        if len(B.reqs) > 4000:
+            B.run()
+    B.run()
+    for s_ in rnd.sample(mols + rmols, min(50 if ctx.quick else 400, len(mols) + len(rmols))):
+        check_smi_preserve(ctx, B, s_, "molecule")
+        if len(ctx.violations) - nv_a2 >= 6:
+            break
+        if len(B.reqs) > 4000:
+            B.run()
+    B.run()
+    hreactions = []
+    for i, rs in enumerate(EXPLICIT_H_REACTIONS):
+        check_graph_to_rsmi(ctx, B, rs, f"hand-written:{i}")
+    for src, rs in (rnd.sample(reactions, 30) if ctx.quick else reactions):
+        check_graph_to_rsmi(ctx, B, rs, src)
+        hv = explicit_h_variant(rs, rnd)
+        if hv is not None:
+            hreactions.append((src + " hydrogen-explicit", hv))
+            check_graph_to_rsmi(ctx, B, hv, src + " hydrogen-explicit")
+        if len(ctx.violations) - nv_a2 >= 6:
+            break
+    ctx.count("a2:graph_to_rsmi:hydrogen-explicit variants", len(hreactions))
+    B.run()
+    phase("a2")
+    # ---- (b2) options of the hydrogen conversions
+    from synkit.IO.chem_converter import smiles_to_graph as _s2g
+    nv_b2 = len(ctx.violations)
+    for G in tiny_hgraphs(nmax):
+        check_hopts(ctx, B, G, "tiny-exhaustive")
+        if len(B.reqs) > 8000:
+            B.run()
+        if len(ctx.violations) - nv_b2 >= 6:
+            break
+    B.run()
+    for s_ in rnd.sample(mols + rmols, min(60 if ctx.quick else 600, len(mols) + len(rmols))):
+        g_ = _s2g(s_)
+        if g_ is not None and g_.number_of_nodes() and len(ctx.violations) - nv_b2 < 6:
+            check_hopts(ctx, B, g_, "molecule")
+    for _ in range(150 if ctx.quick else 1500):
+        check_hopts(ctx, B, synth_hgraph(rnd), "synthetic")
+        if len(B.reqs) > 8000:
+            B.run()
+        if len(ctx.violations) - nv_b2 >= 6:
+            break
+    for _ in range(60 if ctx.quick else 600):
+        check_hopts(ctx, B, synth_free_hgraph(rnd), "synthetic-free-hydrogens")
+        if len(B.reqs) > 8000:
+            B.run()
+    B.run()
+    for src, rs in (rnd.sample(reactions, 25) if ctx.quick else reactions):
+        check_its_explicit(ctx, B, rs, src)
+        if len(B.reqs) > 2000:
+            B.run()
+    B.run()
     ctx.extra["exhaustive"] = False
     ctx.extra["exhaustive_part"] = f"all hydrogen graphs with <= {nmax} nodes over labels C/0, C/2, H/0, H/1, O/no-count and all edge sets"
     nv = len(ctx.violations)
 
+    phase("b2")
     # ---- (c) labels, ITS graphs
     check_labels(ctx, B)
     B.run()
@@ -976,18 +1972,97 @@ def run(ctx):
         if len(B.reqs) > 4000:
             B.run()
     B.run()
+    phase("c")
+    # ---- (c2) explicit-hydrogen exports, rule texts written elsewhere
+    nv_c2 = len(ctx.violations)
+    for _ in range(60 if ctx.quick else 600):
+        I, _, _ = synth_its(rnd)
+        check_its_x(ctx, B, I, "synthetic-its", None)
+        if len(ctx.violations) - nv_c2 >= 6:
+            break
+        if len(B.reqs) > 4000:
+            B.run()
+    for _ in range(80 if ctx.quick else 800):
+        I, _, _ = synth_its(rnd)
+        check_foreign_gml(ctx, B, I, "synthetic-its", None)
+        if len(ctx.violations) - nv_c2 >= 6:
+            break
+        if len(B.reqs) > 4000:
+            B.run()
+    B.run()
+    for i, (src, rs) in enumerate(rnd.sample(reactions, 25) if ctx.quick else reactions):
+        try:
+            its = rsmi_to_its(rs)
+        except Exception:
+            continue
+        check_foreign_gml(ctx, B, its, "corpus-its", f"{src} {rs[:120]}")
+        if not ctx.quick or i < 12:
+            check_its_x(ctx, B, its, "corpus-its", f"{src} {rs[:120]}")
+        if len(ctx.violations) - nv_c2 >= 6:
+            break
+        if len(B.reqs) > 4000:
+            B.run()
+    for src, rs in hreactions[: (10 if ctx.quick else 100)]:
+        try:
+            its = rsmi_to_its(rs)
+        except Exception:
+            continue
+        check_its(ctx, B, its, "hydrogen-explicit-its", f"{src} {rs[:120]}")
+        check_foreign_gml(ctx, B, its, "hydrogen-explicit-its", f"{src} {rs[:120]}")
+    B.run()
     nv2 = len(ctx.violations)
 
+    phase("c2")
     # ---- (d) routes
     rsel = reactions if not ctx.quick else rnd.sample(reactions, 35)
+    # two passes (all originals, then one renumbering of each against the view of its original), so that the Lean requests of many
+    # reactions travel together
+    bases = []
     for src, rs in rsel:
-        base = check_routes(ctx, B, rs, src)
-        B.run()
-        if base is not None:
-            check_routes(ctx, B, renumber(rs, rnd), src + " renumbered", base_view=base)
+        bases.append((src, rs, check_routes(ctx, B, rs, src)))
+        if len(B.reqs) > 3000:
+            B.run()
         if len(ctx.violations) - nv2 >= 6:
             break
     B.run()
+    for src, rs, base in bases:
+        if base is not None and len(ctx.violations) - nv2 < 6:
+            check_routes(ctx, B, renumber(rs, rnd), src + " renumbered", base_view=base)
+        if len(B.reqs) > 3000:
+            B.run()
+    B.run()
+    phase("d")
+    # ---- (d2) reactions with unmapped atoms / spectators, hydrogen-explicit reactions, through all routes
+    nv_d2 = len(ctx.violations)
+    done_ = 0
+    for src, rs in rnd.sample(reactions, min(len(reactions), 40 if ctx.quick else 400)):
+        v_ = unmap_some(rs, rnd)
+        if v_ is None:
+            continue
+        before = ctx.counters.get("d:reactions", 0)
+        check_routes(ctx, B, v_, src + " partially unmapped")
+        if len(B.reqs) > 3000:
+            B.run()
+        if ctx.counters.get("d:reactions", 0) > before:
+            ctx.count("d2:partially_unmapped_reactions")
+            done_ += 1
+            try:
+                check_its(ctx, B, rsmi_to_its(v_), "partially-unmapped-its", f"{src} {v_[:120]}")
+            except Exception:
+                pass
+        if done_ >= (12 if ctx.quick else 120) or len(ctx.violations) - nv_d2 >= 6:
+            break
+    for src, rs in hreactions[: (10 if ctx.quick else 100)] + [(f"hand-written:{i}", x) for i, x in enumerate(EXPLICIT_H_REACTIONS)]:
+        before = ctx.counters.get("d:reactions", 0)
+        check_routes(ctx, B, rs, src)
+        if len(B.reqs) > 3000:
+            B.run()
+        if ctx.counters.get("d:reactions", 0) > before:
+            ctx.count("d2:hydrogen_explicit_reactions")
+        if len(ctx.violations) - nv_d2 >= 6:
+            break
+    B.run()
+    phase("d2")
     ctx.obligation("correspondence (a): smiles_to_graph / graph_to_mol = model; canonical SMILES unchanged", VS["a"] == 0)
     ctx.obligation("correspondence (b): hydrogen conversions = model; total H, restoration under the guard, molecule unchanged", VS["b"] == 0)
     ctx.obligation("correspondence (c): labels, GML writer/reader = model; ITS -> GML -> ITS keeps atoms, charges, order pairs", VS["c"] == 0)
